@@ -77,9 +77,21 @@ CHECKS = {
    technique='bounded-exhaustive enumeration of hostile inputs (footers, TOC JSON structures, payload mutations, HTTP range replies, builder inputs) pushed through every public entry point in crash-isolated child processes',
    text='Every blob length 0..120, every single-byte mutation of each footer kind, all small TOCs over adversarial names/types/link targets/numeric fields wrapped in each container format, every single-byte mutation of a valid blob, a grammar of Content-Range/multipart replies, cyclic/truncated builder inputs; each through ParseFooter/ParseTOC/Open/VerifyTOC, both metadata stores with full walks, fs/reader prefetch/read/passthrough, remote blob reads, Build/Unpack; verdict per (input, stage): ok, error, panic, fatal, hang (3 of 3 fresh processes over 30 s CPU).',
    note='exhaustive over the stated small alphabets only (not all byte strings); stack overflow judged at 64 MiB stack; 4 GiB address-space limit; predicted-death inputs are executed until two same-key deaths were seen (reported as caps)'),
+ 'C01': dict(level='model_checking', design='3/C01',
+   technique='bounded-exhaustive enumeration of single alterations of small blobs through the real digest chain; explicit-state histories of Verify/SkipVerify/read/Prefetch on one cached layer and of fs.Mount pairs; stateless schedule exploration of prefetch vs VerifyTOC vs on-demand reads',
+   text='Every byte position x 4 transformations, every truncation, member swaps, validly recompressed replacement payloads and re-serialised TOC field changes of 7 (quick) / 38 (thorough) base blobs across gzip/zstd:chunked/external TOC, both metadata stores, memory and directory caches: VerifyTOC succeeds only if the parsed TOC hashes to D, no read returns altered bytes, no mismatching chunk remains cached; all histories of depth <=4/6 over Verify(D)/Verify(D\')/SkipVerify/read/Prefetch on one layer shared by two holders; the 2^3 mount decision table and ordered mount pairs; prefetch || VerifyTOC || read under all schedules within the bound.',
+   note='sha256 collision-free; TOC extracted independently (archive/tar, gzip, zstd); fuse.NewServer replaced by a seam so Mount stops before the FUSE server; kernel page cache outside'),
+ 'C02': dict(level='exploration', design='3/C02',
+   technique='bounded-exhaustive enumeration of tars x build/runtime configurations through the full stack (in-memory registry -> remote blob -> metadata store -> reader -> layer nodes -> go-fuse raw bridge) against an archive/tar reference tree; explicit-state BFS over access histories',
+   text='1710 tars of <=3 members over a 13-member alphabet x 24 build x 12 runtime configurations, cold and warm full-view comparison (names, types, modes, sizes, owners, mtimes, rdev, nlink, inode sharing, xattrs, symlink targets, full contents, short reads past EOF); 360 (tar, config) cases with BFS to depth 3/4 over lookup/readdir/getattr/getxattr/readlink/read-grid/prefetch/cache-drop operations, full view compared after every operation.',
+   note='lib/fusedrv drives the node layer through go-fuse\'s raw bridge without a kernel mount; lib/reftar reference (IMPL-RULE comments mark rules taken from the builder rather than the statement); C07 territory (state dir, whiteout/landmark translation) masked'),
+ 'C07': dict(level='exploration', design='3/C07',
+   technique='bounded-exhaustive enumeration of layer stacks x opaque modes x metadata stores x every Lookup/Readdir call order on fresh roots, against an overlayfs reference (apply OCI layers vs merge served lower directories)',
+   text='259 layers of <=3 members (+hard-link layers) under {memory, db} x {trusted, user, all}; full walk vs the translation reference; every LOOKUP/READDIR order up to length 3/4 per directory; 64,516 ordered layer pairs: MergeLower(served) == ApplyLayers(tars); listing/lookup agreement, inode uniqueness and stability, state file JSON.',
+   note='go-fuse raw bridge instead of a kernel mount; real overlayfs replaced by the reference merge rules'),
 }
 
-NOT_YET = 'check not built yet in this session (work in progress; see DESIGN.md section 3)'
+NOT_YET = 'not claimed'
 
 def main():
     checks = []
